@@ -3,6 +3,7 @@ package main
 import (
 	"bytes"
 	"fmt"
+	"net"
 	"os"
 	"reflect"
 	"regexp"
@@ -315,6 +316,7 @@ func c16Spaces(c *fw.Ctx) {
 
 	c16NonCanonicalSpace(c)
 	c16PrivateSpace(c)
+	c16FailedSignSpace(c)
 	c.Space("msg", "messages with all four sections populated (C01 pool + OPT + SVCB + APL + NSEC): Copy and CopyTo vs original, Unpack vs its buffer (every octet overwritten), Pack/PackBuffer/Len/String/Copy read-only; 24 rotations; non-trivial: all", true,
 		func(emit func(func(*fw.R))) {
 			pool := append(c01Pool(),
@@ -551,6 +553,117 @@ func c16Spaces(c *fw.Ctx) {
 						}
 					}
 				})
+			}
+		})
+}
+
+// c16FailedSignSpace: the read-only clause on the error path. An RRset that holds a record which cannot be packed
+// (a TXT string over 255 octets, hex or base64 that does not decode, a 4-octet AAAA, an unsorted type bitmap, a bad
+// name in RDATA) makes Sign and Verify fail inside the canonicalisation loop; whatever they did to the records
+// before that point has to be undone: the caller's RRset is as it was.
+func c16FailedSignSpace(c *fw.Ctx) {
+	type bad struct {
+		what string
+		mk   func(owner string, ttl uint32) []dns.RR // good record(s) and the record that cannot be packed, same type
+	}
+	h := func(owner string, t uint16, ttl uint32) dns.RR_Header {
+		return dns.RR_Header{Name: owner, Rrtype: t, Class: dns.ClassINET, Ttl: ttl}
+	}
+	bads := []bad{
+		{"TXT with a 300-octet string", func(o string, ttl uint32) []dns.RR {
+			return []dns.RR{&dns.TXT{Hdr: h(o, dns.TypeTXT, ttl), Txt: []string{"ok"}}, &dns.TXT{Hdr: h(o, dns.TypeTXT, ttl+1), Txt: []string{strings.Repeat("x", 300)}}}
+		}},
+		{"TLSA with a certificate that is not hex", func(o string, ttl uint32) []dns.RR {
+			return []dns.RR{&dns.TLSA{Hdr: h(o, dns.TypeTLSA, ttl), Usage: 3, Selector: 1, MatchingType: 1, Certificate: "00ff"}, &dns.TLSA{Hdr: h(o, dns.TypeTLSA, ttl+1), Usage: 3, Selector: 1, MatchingType: 1, Certificate: "zz"}}
+		}},
+		{"DNSKEY with a key that is not base64", func(o string, ttl uint32) []dns.RR {
+			return []dns.RR{&dns.DNSKEY{Hdr: h(o, dns.TypeDNSKEY, ttl), Flags: 256, Protocol: 3, Algorithm: 15, PublicKey: "AAAA"}, &dns.DNSKEY{Hdr: h(o, dns.TypeDNSKEY, ttl+1), Flags: 256, Protocol: 3, Algorithm: 15, PublicKey: "!!!"}}
+		}},
+		{"AAAA holding 4 octets", func(o string, ttl uint32) []dns.RR {
+			return []dns.RR{&dns.AAAA{Hdr: h(o, dns.TypeAAAA, ttl), AAAA: net.ParseIP("2001:db8::1")}, &dns.AAAA{Hdr: h(o, dns.TypeAAAA, ttl+1), AAAA: net.IP{192, 0, 2, 1}[:4:4]}}
+		}},
+		{"NSEC with an unsorted bitmap", func(o string, ttl uint32) []dns.RR {
+			return []dns.RR{&dns.NSEC{Hdr: h(o, dns.TypeNSEC, ttl), NextDomain: "Next.Example.", TypeBitMap: []uint16{1, 2}}, &dns.NSEC{Hdr: h(o, dns.TypeNSEC, ttl+1), NextDomain: "Next.Example.", TypeBitMap: []uint16{2, 1}}}
+		}},
+		{"MX with a malformed exchange name", func(o string, ttl uint32) []dns.RR {
+			return []dns.RR{&dns.MX{Hdr: h(o, dns.TypeMX, ttl), Preference: 1, Mx: "Mail.Example."}, &dns.MX{Hdr: h(o, dns.TypeMX, ttl+1), Preference: 2, Mx: "Bad..Example."}}
+		}},
+		{"A and a record of a URI whose target cannot be packed (empty owner label in RDATA-less form)", func(o string, ttl uint32) []dns.RR {
+			return []dns.RR{&dns.SRV{Hdr: h(o, dns.TypeSRV, ttl), Priority: 1, Weight: 1, Port: 1, Target: "T.Example."}, &dns.SRV{Hdr: h(o, dns.TypeSRV, ttl+1), Priority: 1, Weight: 1, Port: 2, Target: "not-fqdn"}}
+		}},
+	}
+	owners := []string{"MiXed.Example.", "mixed.example.", "expanded.mixed.example."}
+	c.Space("rrset-sign-verify-failing", fmt.Sprintf("RRSIG.Sign and RRSIG.Verify over RRsets that hold a record which cannot be packed (%d kinds), alone / behind / in front of a good record of the same type × owner {mixed case, canonical, wildcard expansion} × record TTLs different from the original TTL: both return an error and the caller's RRset, the RRSIG and the DNSKEY are as they were; fresh Ed25519 key; non-trivial: Sign or Verify returned an error", len(bads)), true,
+		func(emit func(func(*fw.R))) {
+			for _, b := range bads {
+				for oi, owner := range owners {
+					for order := 0; order < 3; order++ {
+						b, oi, owner, order := b, oi, owner, order
+						emit(func(r *fw.R) {
+							recs := b.mk(owner, 100)
+							var set []dns.RR
+							switch order {
+							case 0:
+								set = []dns.RR{recs[1]}
+							case 1:
+								set = []dns.RR{recs[0], recs[1]}
+							case 2:
+								set = []dns.RR{recs[1], recs[0]}
+							}
+							key := &dns.DNSKEY{Hdr: dns.RR_Header{Name: "example.", Rrtype: dns.TypeDNSKEY, Class: 1, Ttl: 3600}, Flags: 257, Protocol: 3, Algorithm: dns.ED25519}
+							priv, err := key.Generate(256)
+							if err != nil {
+								r.Fail("internal/keygen", "%v", err)
+								return
+							}
+							signer := priv.(interface {
+								Public() cryptoPublicKey
+								Sign(rand ioReader, digest []byte, opts cryptoSignerOpts) ([]byte, error)
+							})
+							sigOwner := "mixed.example."
+							if oi == 2 {
+								sigOwner = "*.mixed.example."
+							}
+							// a signature made over the good record alone, for Verify to work with
+							good := dns.Copy(recs[0])
+							good.Header().Name = sigOwner
+							vsig := &dns.RRSIG{Hdr: dns.RR_Header{Name: sigOwner, Rrtype: dns.TypeRRSIG, Class: 1, Ttl: 77}, Algorithm: dns.ED25519, KeyTag: key.KeyTag(), SignerName: "example.", Inception: 1, Expiration: 4000000000}
+							if err := vsig.Sign(signer, []dns.RR{good}); err != nil {
+								r.Fail("internal/sign-good", "%s: %v", b.what, err)
+								return
+							}
+							vsig.Hdr.Name = owner
+							before, _ := graph(set, false, true)
+							sig := &dns.RRSIG{Hdr: dns.RR_Header{Name: owner, Rrtype: dns.TypeRRSIG, Class: 1, Ttl: 77}, Algorithm: dns.ED25519, KeyTag: key.KeyTag(), SignerName: "example.", Inception: 1, Expiration: 4000000000}
+							serr := sig.Sign(signer, set)
+							if after, _ := graph(set, false, true); after != before {
+								r.Fail("mutated-by/RRSIG.Sign/failing", "Sign (result %v) changed the RRset (%s, owner %q, order %d):\n before %s\n after  %s", serr, b.what, owner, order, before, after)
+								before = after
+							}
+							bs, _ := graph(vsig, false, true)
+							bk, _ := graph(key, false, true)
+							verr := vsig.Verify(key, set)
+							if after, _ := graph(set, false, true); after != before {
+								r.Fail("mutated-by/RRSIG.Verify/failing", "Verify (result %v) changed the RRset (%s, owner %q, order %d):\n before %s\n after  %s", verr, b.what, owner, order, before, after)
+							}
+							if as, _ := graph(vsig, false, true); as != bs {
+								r.Fail("mutated-by/RRSIG.Verify/receiver", "Verify (result %v) changed the RRSIG it was called on (%s):\n before %s\n after  %s", verr, b.what, bs, as)
+							}
+							if ak, _ := graph(key, false, true); ak != bk {
+								r.Fail("mutated-by/RRSIG.Verify/key", "Verify (result %v) changed the DNSKEY (%s):\n before %s\n after  %s", verr, b.what, bk, ak)
+							}
+							if serr != nil || verr != nil {
+								r.Nontrivial()
+							}
+							if serr != nil {
+								r.Count("Sign failed", 1)
+							}
+							if verr != nil {
+								r.Count("Verify failed", 1)
+							}
+						})
+					}
+				}
 			}
 		})
 }
